@@ -296,6 +296,21 @@ def prov_rdkit_attrs(repo, tier="quick"):
             src = xyz_of(v)
             m = method_call(src) if src is not None else None
             okp = bool(m and m[1] == "GetAtomPosition")
+            if not okp:
+                # one row of conformer.GetPositions(): the (x, y, z) of one atom, rows in atom index order
+                c_ = is_call(v, "numpy.array", "numpy.asarray")
+                row = c_[0][0] if c_ and c_[0] else v
+
+                def positions_call(t):
+                    mm = method_call(strip_wrappers(t))
+                    return bool(mm and mm[1] == "GetPositions" and not mm[2])
+                if row[0] == "sub" and row[1][0] == "iter" and row[2] == ("const", 1):
+                    en = is_call(row[1][2], "enumerate")
+                    okp = bool(en and en[0] and positions_call(en[0][0]))
+                elif row[0] == "iter":
+                    okp = positions_call(row[2])
+                elif row[0] == "sub":
+                    okp = positions_call(row[1])
             (obs.append(ob_ok(oid, f2, n.ast, construct="position = array([p.x, p.y, p.z]) with p = conf.GetAtomPosition(...)", instance="position:" + f2.name,
                               reason="the three components of the conformer position, in x, y, z order")) if okp else
              obs.append(ob_fail(oid, f2, n.ast, construct="position = %s" % show(v)[:100], instance="position:" + f2.name,
@@ -830,7 +845,7 @@ COMPLETE_LOOPS_RDKIT = [
     ("rdkit:networkx_to_rdkit", "mol_graph.edges", "every bond is added to the RDKit molecule"),
     ("rdkit:rdkit_to_networkx", "GetAtoms()", "every RDKit atom becomes a node"),
     ("rdkit:rdkit_to_networkx", "GetBonds()", "every RDKit bond becomes an edge"),
-    ("rdkit:embed_3d_via_rdkit", "GetAtoms()", "every atom gets its position"),
+    ("rdkit:embed_3d_via_rdkit", ("GetAtoms()", "GetPositions()"), "every atom gets its position"),
     ("coordinates:forward_map_molecule", "cg_mol.nodes", "every bead gets a position"),
     ("coordinates:forward_map_molecule", ("'weight').items()", "'weight')"), "every atom of the bead contributes"),
 ]
@@ -1076,7 +1091,7 @@ def prov_hcount_bookkeeping(repo, tier="quick", fq="resolve:MoleculeResolver.edg
             both = it[0] == "sub" and it[2] == ("const", 0) and is_call(it[1], "match_bonding_descriptors") is not None
             if it[0] == "tuple" and len(it[1]) == 2:
                 both = True
-        if not both and inner_loop is not None and ends_written is not None and bond_ends is not None and bond_ends <= ends_written:
+        if not both and ends_written is not None and bond_ends is not None and bond_ends <= ends_written:
             # written out once per end instead of as a loop over the two ends
             both = node_attr(fl.canon(n.ast.targets[0], n.id)) is not None and node_attr(fl.canon(n.ast.targets[0], n.id))[1] in bond_ends
         (obs.append(ob_ok(oid, fi, n.ast, construct="for end in (both ends of the new bond)", instance="both-ends", reason="both atoms are updated")) if both else
